@@ -220,7 +220,12 @@ def transform_parameters(b, f, profile):
     b.uint(f.wavelet)
     b.uint(f.depth)
     if f.version >= 3:
-        b.bool(0)
+        who = getattr(f, "wavelet_ho", None)  # a different horizontal wavelet: asym_transform_index_flag set
+        if who is None:
+            b.bool(0)
+        else:
+            b.bool(1)
+            b.uint(who)
         b.bool(0)
     b.uint(f.slices_x)
     b.uint(f.slices_y)
